@@ -339,20 +339,25 @@ def _ws(rng):
 
 
 def _ignore_junk(rng, depth, fake):
-    """contents of an IGNOREd section: anything but an unbalanced '<![' or ']]>'"""
-    out = ""
+    """contents of an IGNOREd section: anything but an unbalanced '<![' or ']]>'.  The pieces are joined with a blank so
+    that two of them cannot combine into a delimiter by accident (']' + ']>' = ']]>', '<!' + '[x' = '<![x')"""
+    return " ".join(_ignore_pieces(rng, depth, fake))
+
+
+def _ignore_pieces(rng, depth, fake):
+    out = []
     for _ in range(rng.choice([0, 1, 2, 4])):
         k = rng.random()
         if k < 0.25:
             n = nm(rng, "i")
             fake.append(n)
-            out += '<!ENTITY %s "ignored">' % n
+            out.append('<!ENTITY %s "ignored">' % n)
         elif k < 0.45:
-            out += rng.choice(["]", "]>", "] ]>", "x]", "<!", "<![x", "]] >", "'", '"', "%zz;", "&q;", "-->", "<a>"]).replace("<![x", "<! [x")
+            out.append(rng.choice(["]", "]>", "] ]>", "x]", "<!", "<! [x", "]] >", "'", '"', "%zz;", "&q;", "-->", "<a>"]))
         elif k < 0.65 and depth < 3:
-            out += "<![" + rng.choice(["", "IGNORE[", "INCLUDE[", " x ["]) + _ignore_junk(rng, depth + 1, fake) + "]" * rng.choice([2, 2, 3, 5]) + ">"
+            out.append("<![" + rng.choice(["", "IGNORE[", "INCLUDE[", " x ["]) + _ignore_junk(rng, depth + 1, fake) + "]" * rng.choice([2, 2, 3, 5]) + ">")
         else:
-            out += txt(rng)
+            out.append(txt(rng))
     return out
 
 
